@@ -495,9 +495,10 @@ def load_database(dbpath, rootdir):
 
             entry["file"] = path
 
-            # Include paths may be specified relative to root
+            # Include paths may be specified relative to the directory in
+            # which the command was run
             entry["include_paths"] = [
-                os.path.abspath(os.path.join(rootdir, f))
+                os.path.abspath(os.path.join(filedir, f))
                 for f in entry["include_paths"]
             ]
 
